@@ -460,6 +460,90 @@ def work_broadcast(seed: int) -> tuple:
         w.close()
 
 
+WAITER_STATES = ("pending", "cancelled", "failed", "answered")
+
+
+def work_late_answers(seed: int) -> tuple:
+    """
+    Authentic answers to outstanding requests whose waiter is gone: A asks B (DHT ping / find on both DHT overlays,
+    Discovery ping); before B's answer is handed to A, the future the application awaited is left pending, cancelled
+    (asyncio.wait_for timed out), failed or already completed.  Handing the answer to A returns normally - nothing, a
+    BaseException such as CancelledError included, leaves notify_listeners - and a later listener still sees it.
+    """
+    viol: dict = {}
+    n = 0
+    for oname in ("DHTCommunity", "DHTDiscoveryCommunity", "DiscoveryCommunity"):
+        kinds = ("ping",) if oname == "DiscoveryCommunity" else ("ping", "find")
+        for kind in kinds:
+            for state in WAITER_STATES:
+                w = simnet.World(("c03-late", oname, kind, state, seed))
+                try:
+                    ks = fixtures.rotate(seed, 2)
+                    a, b = w.add_node("A", ks[0]), w.add_node("B", ks[1])
+                    oa, ob = overlays.make(a, oname), overlays.make(b, oname)
+                    oa.walk_to(b.address)
+                    w.flush()
+                    sniffer = Sniffer(a.endpoint)
+                    before = set(oa.request_cache._identifiers)  # noqa: SLF001
+                    if oname == "DiscoveryCommunity":
+                        peer = next(iter(oa.get_peers()), None)
+                        if peer is None:
+                            viol.setdefault("harness:late-answers-no-peer", (oname, {"late": True, "seed": seed}))
+                            continue
+                        a.run(oa.send_ping, peer)
+                    else:
+                        rt = next(iter(oa.routing_tables.values()), None)
+                        nodes = [] if rt is None else rt.closest_nodes(ob.my_peer.mid, 1)
+                        if not nodes:
+                            viol.setdefault("harness:late-answers-no-node", (oname, {"late": True, "seed": seed}))
+                            continue
+                        if kind == "ping":
+                            a.run(oa.ping, nodes[0])
+                        else:
+                            a.run(oa._send_find_request, nodes[0], ob.my_peer.mid, False)  # noqa: SLF001
+                    new = [c for k, c in oa.request_cache._identifiers.items() if k not in before]  # noqa: SLF001
+                    fut = getattr(new[0], "future", None) if new else None
+                    if fut is not None and not fut.done():
+                        if state == "cancelled":
+                            fut.cancel()
+                        elif state == "failed":
+                            fut.set_exception(RuntimeError("the application gave up"))
+                            fut.exception()
+                        elif state == "answered":
+                            fut.set_result(None)
+                    elif state != "pending":
+                        continue                       # this request has no future a waiter could have touched
+                    w.loop.settle()
+                    # B handles the request; its answer is then handed to A by hand so that nothing hides an exception
+                    while w.inflight and tuple(w.inflight[0].dst) != tuple(a.address):
+                        w.deliver(0)
+                    answers = [dg for dg in w.inflight if tuple(dg.dst) == tuple(a.address)]
+                    del w.inflight[:]
+                    if not answers:
+                        viol.setdefault("harness:late-answers-no-answer", (f"{oname} {kind}", {"late": True, "seed": seed}))
+                    for dg in answers:
+                        n += 1
+                        seen0 = sniffer.seen
+                        try:
+                            a.endpoint.notify_listeners((dg.src, dg.data))
+                            w.loop.settle()
+                        except BaseException as e:  # noqa: BLE001
+                            import traceback  # noqa: PLC0415
+                            tb = traceback.extract_tb(e.__traceback__)
+                            where = f"{tb[-1].filename.split('/ipv8/')[-1]}:{tb[-1].name}" if tb else "?"
+                            viol.setdefault(f"receive-raises:{type(e).__name__}:{where}",
+                                            (f"{oname}: the authentic answer to a {kind} request whose waiter was {state} "
+                                             f"raised {type(e).__name__} out of notify_listeners at {where}",
+                                             {"late": True, "seed": seed}))
+                            continue
+                        if sniffer.seen != seen0 + 1:
+                            viol.setdefault("listener-starved", (f"{oname}: a later listener did not get the answer to a "
+                                                                 f"{kind} request ({state})", {"late": True, "seed": seed}))
+                finally:
+                    w.close()
+    return n, viol
+
+
 def work_snapshot(seed: int) -> tuple:
     viol: dict = {}
     n = 0
@@ -708,6 +792,9 @@ def run(ctx: core.Ctx) -> core.Report:
     n_bc, v = work_broadcast(seed)
     for key, (what, rp) in v.items():
         violations.append(core.Violation(key, what, rp))
+    n_late, v = work_late_answers(seed)
+    for key, (what, rp) in v.items():
+        violations.append(core.Violation(key, what, rp))
     depth = 5 if ctx.thorough else 4    # 11-event alphabet (two overlays, a twin on the same prefix, a sniffer)
     churn = core.pmap(work_churn, [(i, depth, seed) for i in range(len(CHURN_ALPHABET))], ctx.jobs, chunk=1)
     n_churn = sum(c[0] for c in churn)
@@ -729,7 +816,7 @@ def run(ctx: core.Ctx) -> core.Report:
     for key, (what, rp) in sorted(fold.items())[:12]:
         violations.append(core.Violation(key, what, rp))
     dec["violating_classes"] = len({k.split(":")[1] for k in fold})
-    total = evals + n_cells + n_snap + dec["evaluations"] + n_churn + n_rdv + n_exit + n_bc
+    total = evals + n_cells + n_snap + dec["evaluations"] + n_churn + n_rdv + n_exit + n_bc + n_late
     cov = {
         "evaluations": total,
         "distinct_nontrivial": total - len(items),
@@ -745,7 +832,7 @@ def run(ctx: core.Ctx) -> core.Report:
         "handler_entries_observed": entered,
         "cell_inputs": n_cells, "cell_kinds": cell_kinds,
         "snapshot_inputs": n_snap,
-        "exit_socket_inputs": n_exit, "broadcast_socket_inputs": n_bc,
+        "exit_socket_inputs": n_exit, "broadcast_socket_inputs": n_bc, "late_answers": n_late,
         "rendezvous_relays": {"inputs": n_rdv, "table_states": rdv_states,
                               "rule": "recorded valid cells of a linked hidden-service circuit x every subset of the relay "
                                       "entries of the rendezvous point and of the downloader-side relay removed"},
@@ -775,6 +862,8 @@ def replay(ctx: core.Ctx, data) -> list:  # noqa: ANN001
         return [core.Violation(k, w) for k, (w, _) in work_exit_socket(data["seed"])[1].items()]
     if data.get("broadcast"):
         return [core.Violation(k, w) for k, (w, _) in work_broadcast(data["seed"])[1].items()]
+    if data.get("late"):
+        return [core.Violation(k, w) for k, (w, _) in work_late_answers(data["seed"])[1].items()]
     if data.get("rendezvous"):
         return [core.Violation(k, w) for k, (w, _) in work_rendezvous(data["seed"])[2].items()]
     if "snapshot" in data:
